@@ -57,6 +57,17 @@ CLAIMED = {
   ref="5.5"),
 }
 
+CLAIMED["C19"] = dict(
+  text="Coq theorems, closed under the global context: the iterative single-backtrack-point glob_match of plan.rs (branch order after the F3 repair) equals the wildcard definition gm for EVERY pattern and text (incl. texts containing * and ?) and never exhausts its fuel; the pre-repair order is refuted by (\"*\", \"*ab\"); is_excluded is characterised by gm (trailing slashes trimmed, empty patterns ignored, slash patterns on the whole path string, others on each Normal component); build_plan's transfer/skipped/delete are exactly the set definitions (membership iff, count, delete only with the flag), sorted and duplicate-free, excluded paths are never planned; parse_remote_meta_output applied to the modelled find -printf output returns the map of the (path, size, whole-second mtime) triples for all paths without NUL, sizes <= u64::MAX, 0 <= seconds <= i64::MAX and any fraction text (decimal printer/parser round trip proved). Tie: the real functions (source compiled in unchanged, both profiles) vs the extracted model line by line; matcher exhaustive over {a,b,*,?,.,/} (patterns <= 4 x texts <= 5 quick, <= 5 x <= 7 thorough) against an independent table-based definition; planner exhaustive over a 4-path universe x all metadata relations x 7 exclude lists x both delete settings.",
+  note="Trusted: Coq kernel, gen_constants.py (metacharacters, separators and the find format string are regenerated from plan.rs/meta.rs), extraction + driver.ml (UTF-8 decoding of case strings), the Rust harness. Modelled, not verified: std::path components/ordering, BTreeMap, slice::sort, str::parse, from_utf8_lossy on valid UTF-8, GNU find -printf. The binary-level `sync -r --dry-run` cross-check of DESIGN 5.6 is left to C15/C04.",
+  technique="Coq proof (loop invariant of the matcher by strong induction on a lexicographic measure; set characterisations by induction; decimal round trip) + checked correspondence incl. exhaustive sweeps",
+  ref="5.6")
+CLAIMED["C18"] = dict(
+  text="Coq theorems, closed under the global context, for an ARBITRARY digest type with decidable equality: reconcile_path (nested match as written) equals the documented case table written separately on the equality pattern of (a, b, base); it is mirror-symmetric (swap), invariant under every injective renaming of fingerprints (depends only on equalities of (digest, type) pairs), never deletes without a base, and deletes only when the other side is absent and the survivor equals the base; reconcile over whole trees = the non-Noop per-path decisions over the strictly sorted, duplicate-free union of both key sets, with every base lookup None when the base is untrusted (hence no delete), for any key type with a lawful comparison (PathBuf's is proved lawful). Tie: real reconcile_path/reconcile (source compiled in unchanged, both profiles) on all 343 triples of the quotient, 10^4 random 32-byte digests, all 27^3 maps over a 3-path universe x both trust settings, random larger trees; canonical action strings compared with the extracted model; oracle = independent Rust transcription of the documented table + mirror/renaming/delete checks.",
+  note="Trusted as C19. sort_unstable+dedup is modelled as stable sort+dedup (identical unless the two maps spell a path-equal key differently). The `bisync --dry-run` binary-level cross-check of DESIGN 5.8 is left to C02/C06.",
+  technique="Coq proof (case analysis over decidable equalities; sorting/dedup lemmas) + checked correspondence incl. exhaustive quotient",
+  ref="5.8")
+
 NA_REASON = "check not built yet in this session; see DESIGN.md section 5 for the planned model and theorems"
 
 
